@@ -36,6 +36,7 @@ def families(tier):
         ("abc_required", topos.REQUIRED_IDIOM["abc_required"], 0, 3),
         ("tap_scale_and_linear", topos.TAPS["tap_scale_and_linear"], 2, 3),
         ("tap_shared_scale", dict(topos.TAPS["tap_shared_scale"], order=None), 2, 3),
+        ("tap_shared_dfix", dict(topos.TAPS["tap_shared_dfix"], order=None), 3, 3),
     ]
     fams = []
     for name, topo, uq, ut in table:
@@ -46,7 +47,10 @@ def families(tier):
         perms = list(itertools.permutations(range(n)))
         lperms = list(itertools.permutations(range(m)))
         combos = [(po, lo) for po in perms for lo in lperms if not (po == perms[0] and lo == lperms[0])]
-        if q and name == "tap_shared_scale":
+        if name == "tap_shared_dfix":
+            # expensive (delay + two clocks): the producer listed last / first, reference link order
+            combos = [c for c in combos if c[1] == lperms[0] and c[0] in ((2, 1, 0), (0, 2, 1))][: (1 if q else 2)]
+        elif q and name == "tap_shared_scale":
             # all listing orders (the producer must also be tried BETWEEN its two consumers), reference link order
             combos = [c for c in combos if c[1] == lperms[0]]
         elif q and name == "fan_out_late_first_pull":
